@@ -518,17 +518,17 @@ impl FreezerFilesBuilder {
 
     fn open_index(&self) -> Result<(File, u64), IoError> {
         let (mut index, mut size) = self.open_append(self.file_path.join(INDEX_FILE_NAME))?;
-        // fill a default entry within empty index
+        // ensure the index is a multiple of INDEX_ENTRY_SIZE bytes
+        let tail = size % INDEX_ENTRY_SIZE;
+        if tail != 0 {
+            size -= tail;
+            helper::truncate_file(&mut index, size)?;
+        }
+
+        // fill a default entry within empty index (also one whose first entry was cut short)
         if size == 0 {
             index.write_all(&IndexEntry::default().encode())?;
             size += INDEX_ENTRY_SIZE;
-        }
-
-        // ensure the index is a multiple of INDEX_ENTRY_SIZE bytes
-        let tail = size % INDEX_ENTRY_SIZE;
-        if (tail != 0) && (size != 0) {
-            size -= tail;
-            helper::truncate_file(&mut index, size)?;
         }
         Ok((index, size))
     }
